@@ -1199,10 +1199,11 @@ x
         """
         if np.size(valid) != self.E:
             raise ValueError("the input vector does not have the correct size")
-        valid = np.reshape(valid, np.size(valid))
+        # an edge is kept when its entry is not 0, whatever the values are
+        valid = np.reshape(valid, np.size(valid)) != 0
         self.E = int(valid.sum())
-        self.edges = self.edges[valid != 0]
-        self.weights = self.weights[valid != 0]
+        self.edges = self.edges[valid]
+        self.weights = self.weights[valid]
 
     def list_of_neighbors(self):
         """ returns the set of neighbors of self as a list of arrays
